@@ -544,10 +544,16 @@ namespace vsp
             c.lattice = product({level == 0 ? scalars({0, 0.1, PI / 2, PI - 0.1, PI}) : scalars({0, 1e-9, 0.1, PI / 2 - 1e-9, PI / 2, 2.0, PI - 0.1, PI}), angles(level >= 2 ? 1 : 0)});
             c.tieRule = true;
         }
-        else if (name == "Dubins" || name == "DubinsSym" || name == "ReedsShepp")
+        else if (name == "Dubins" || name == "DubinsSym" || name == "ReedsShepp" || name == "ReedsShepp2" || name == "ReedsSheppHalf" || name == "Dubins2Sym")
         {
             std::shared_ptr<ob::SE2StateSpace> s;
-            if (name == "Dubins")
+            if (name == "ReedsShepp2")
+                s = std::make_shared<ob::ReedsSheppStateSpace>(2.0);  // turning radii other than 1: the normalisation by rho matters
+            else if (name == "ReedsSheppHalf")
+                s = std::make_shared<ob::ReedsSheppStateSpace>(0.5);
+            else if (name == "Dubins2Sym")
+                s = std::make_shared<ob::DubinsStateSpace>(2.0, true);
+            else if (name == "Dubins")
                 s = std::make_shared<ob::DubinsStateSpace>(1.0, false);
             else if (name == "DubinsSym")
                 s = std::make_shared<ob::DubinsStateSpace>(0.5, true);
@@ -559,6 +565,8 @@ namespace vsp
             c.headingOnly = true;
             c.tieRule = true;
             c.tol = 1e-6;
+            if (name == "ReedsShepp2" || name == "ReedsSheppHalf" || name == "Dubins2Sym")
+                c.extentLaw = false;  // the inherited SE(2) extent is not a bound for the car-like spaces (known finding on "Dubins"); not re-litigated per radius
         }
         else if (name == "R2pinned")
         {
